@@ -16,6 +16,8 @@ Code ↔ model map
 * `types/regexptype.go Regexp.ToString` → `RegexpQuote`            → `regexpQuote`
 * `types/arraytype.go Array.ToString` (`%p`, not alt: `[`, elements separated by `, `, `]`)       → `printVal (.arr _)`
 * `types/hashtype.go Hash.ToString` (`%p`, not alt: `{`, `k => v` separated by `, `, `}`)          → `printVal (.hash _)`
+* `types/types.go TypeToString / basicTypeToString` (name, then `Parameters()` rendered as an array in the subsequent
+  context: `[`, `, `, `]`)                                                                            → `printVal (.tyx _ _)`
 -/
 namespace Pcore.Syntax
 
@@ -29,6 +31,7 @@ inductive Val where
   | regexp (s : Str)
   | arr (vs : List Val)
   | hash (es : List (Val × Val))
+  | tyx (name : Str) (params : Option (List Val))   -- a type expression: `Name` or `Name[p, …]` (see Model/Types.lean)
   deriving Repr, Inhabited
 
 mutual
@@ -42,6 +45,8 @@ def printVal : Val → Str
   | .regexp s => regexpQuote s
   | .arr vs => '[' :: (printVals vs ++ [']'])
   | .hash es => '{' :: (printEntries es ++ ['}'])
+  | .tyx n none => n
+  | .tyx n (some ps) => n ++ ('[' :: (printVals ps ++ [']']))
 def printVals : List Val → Str
   | [] => []
   | [v] => printVal v
@@ -64,6 +69,8 @@ def exprOf : Val → Expr
   | .regexp s => .regexp s
   | .arr vs => .arr (exprsOf vs)
   | .hash es => .hash (entriesOf es)
+  | .tyx n none => .dtype n none
+  | .tyx n (some ps) => .dtype n (some (exprsOf ps))
 def exprsOf : List Val → List Expr
   | [] => []
   | v :: vs => exprOf v :: exprsOf vs
